@@ -254,10 +254,12 @@ func c17ThirdCurve(r *vc.Run, g rng) {
 
 // ---------------- C17 ----------------
 func genC17(r *vc.Run) {
-	r.Rule = "every door through which a point enters (NewECPoint, UnFlattenECPoints, JSON with and without curve name, Gob) on on-curve points, perturbed / swapped / out-of-range / negative coordinates, the other curve's points, the 8 torsion points; Add / ScalarMult / ScalarBaseMult / EightInvEight against the Coq curve arithmetic (an independent affine implementation) with scalars {0,1,2,q-1,q,q+1,>q,random}; group laws checked on random triples; the generic doors and the arithmetic again on NIST P-256 (a = -3, outside the registry); non-trivial = all cases"
+	r.Rule = "every door through which a point enters (NewECPoint, UnFlattenECPoints, JSON with and without curve name, Gob) on on-curve points, perturbed / swapped / out-of-range / negative coordinates, the other curve's points, the 8 torsion points; Add / ScalarMult / ScalarBaseMult / EightInvEight against the Coq curve arithmetic (an independent affine implementation) with scalars {0,1,2,q-1,q,q+1,>q,random}; group laws checked on random triples; EdDSA keygen / signing / resharing (threshold raised) runs in which one participant adds the point of order two to a committed point, consistently opened, which must leave the honest outcome unchanged; the generic doors and the arithmetic again on NIST P-256 (a = -3, outside the registry); non-trivial = all cases"
 	g := rng{r}
 	npts := r.Pick(6, 30)
 	c17ThirdCurve(r, g)
+	// the doors inside the EdDSA rounds: a small-order component on a committed point must be gone before any check
+	torsionRuns(r)
 	for _, cn := range []string{"secp256k1", "ed25519"} {
 		ec := curveByName(cn)
 		q, P := ec.Params().N, ec.Params().P
